@@ -139,6 +139,18 @@ def catalogue(chk, deb, btcc, tap):
         for a in keyed:
             cli("inline-fn-keys", "btcc", ["%s(%s)" % (fn, a)])
             repl("repl-tf-keys", ["0x51"], ["tf " + fn.replace("_", "-") + " " + a.strip("[]"), "tf verify-sig-compact " + a.strip("[]")])
+    # several transforms in one process (library state set up by one must not trip the next): every ordered pair of the elliptic-curve ones
+    ecx = [("combine_pubkeys", "[0x02" + GK + " 0x03" + GK + "]"), ("tweak_pubkey", "[0x" + "00" * 31 + "02 0x02" + GK + "]"), ("taproot_tweak_pubkey", "[0x" + GK + " 0x" + "11" * 32 + "]"),
+           ("pubkey_to_xpubkey", "0x02" + GK), ("verify_sig", "[0x" + "11" * 32 + " 0x02" + GK + " 0x3006020101020101]"), ("verify_sig", "[0x" + "11" * 32 + " 0x" + GK + " 0x" + "33" * 64 + "]"),
+           ("pubkey_to_xpubkey", "0x02" + "00" * 32), ("sha256", "0x01")]
+    for f1, a1 in ecx:
+        for f2, a2 in ecx:
+            cli("inline-fn-pairs", "btcc", ["%s(%s)" % (f1, a1), "%s(%s)" % (f2, a2)])
+            if f1 <= f2:
+                repl("repl-tf-pairs", ["0x51"], ["tf " + f1.replace("_", "-") + " " + a1.strip("[]"), "tf " + f2.replace("_", "-") + " " + a2.strip("[]"),
+                                                "tf " + f1.replace("_", "-") + " " + a1.strip("[]")])
+    cli("inline-fn-nested", "btcc", ["pubkey_to_xpubkey(combine_pubkeys([0x02" + GK + " 0x03" + GK + "]))"])
+    cli("inline-fn-nested", "btcc", ["sha256(hex(reverse(pubkey_to_xpubkey(tweak_pubkey([0x" + "00" * 31 + "02 0x02" + GK + "])))))"])
     for fn in fns:
         for a in (argsets if not quick else argsets[::2] + argsets[1:4]):
             cli("inline-fn", "btcc", ["%s(%s)" % (fn, a)])
